@@ -8,6 +8,7 @@ import (
 	"github.com/goatcms/goatcore/filesystem"
 	"github.com/goatcms/goatcore/varutil"
 	"github.com/goatcms/goatcore/varutil/goaterr"
+	"github.com/goatcms/goatcore/workers/verifhook"
 )
 
 const (
@@ -168,6 +169,7 @@ func (fs *Filespace) Writer(destPath string) (writer filesystem.Writer, err erro
 	if dir, err = mkdirAllNodes(fs.root, destDirPath, filesystem.DefaultUnixDirMode); err != nil {
 		return nil, err
 	}
+	verifhook.At("memfs.writer.beforeDirLock")
 	dir.Lock()
 	defer dir.Unlock()
 	if node, err = dir.getNode(destNodeName); err != nil {
@@ -223,6 +225,7 @@ func (fs *Filespace) WriteFile(destPath string, data []byte, filemode os.FileMod
 	if dir, err = mkdirAllNodes(fs.root, destDirPath, filemode); err != nil {
 		return err
 	}
+	verifhook.At("memfs.writeFile.beforeDirLock")
 	dir.Lock()
 	defer dir.Unlock()
 	if node, err = dir.getNode(destNodeName); err != nil {
